@@ -828,6 +828,15 @@ class Gen:
             except Exception:
                 self.rejected += 1
                 return None
+            if node["op"] in ("sin", "cos", "tan") and node["in"]:
+                # periodic functions of huge arguments amplify the (legitimate) last-bit differences of their
+                # input beyond any tolerance: not a meaningful comparison, keep arguments moderate
+                a0 = vals.get(node["in"][0])
+                if isinstance(a0, np.ndarray) and a0.size and a0.dtype.kind in "fc":
+                    with np.errstate(all="ignore"):
+                        m = np.abs(a0[np.isfinite(a0)])
+                    if m.size and float(m.max()) > 1e5:
+                        return None
             # keep computations small: the cost of a run is ~10 ms per task
             vs = v if isinstance(v, tuple) else (v,)
             if any(getattr(x, "size", 1) > self.maxsize for x in vs):
